@@ -272,6 +272,47 @@ func TestVerif_C03(t *testing.T) {
 		vfC03Visit(r, c.name, "nesting-6", 0, &vfExec{}, cur, states, &smu)
 		r.Transitions(1)
 	}
+	// many-ancestor-links family: k groups, each holding as many hard links to itself as a group
+	// has room for (31 beside nothing else): hundreds of cycle cuts in one Open of a file that is
+	// two levels deep; every link must be listed
+	for _, k := range []int{1, 3, 9} {
+		var h []vfOp
+		for g := 0; g < k; g++ {
+			gp := fmt.Sprintf("/m%d", g)
+			h = append(h, vfOp{Op: "mkgroup", Path: gp})
+			for l := 0; l < 31; l++ {
+				h = append(h, vfOp{Op: "hardlink", Path: fmt.Sprintf("%s/l%02d", gp, l), Target: gp})
+			}
+		}
+		ex := vfRun(dir, nil, h, true)
+		r.Transitions(1)
+		r.Case(fmt.Sprintf("many-ancestor-links/%d", k))
+		detail := map[string]any{"family": "many-ancestor-links", "groups": k, "self_links_per_group": 31}
+		accepted := 0
+		for _, e := range ex.Errs {
+			if e == nil {
+				accepted++
+			}
+		}
+		detail["accepted_operations"] = accepted
+		if ex.Closed == nil {
+			detail["open_error"] = fmt.Sprint(ex.ClosedErr)
+			r.Fail("many-ancestor-links/file-unopenable", detail)
+			continue
+		}
+		missing := 0
+		for i, o := range h {
+			if o.Op == "hardlink" && ex.Errs[i] == nil && ex.Closed.Get(o.Path) == nil {
+				missing++
+			}
+		}
+		if missing > 0 {
+			detail["links_missing"] = missing
+			r.Fail("many-ancestor-links/links-missing", detail)
+		} else {
+			r.Outcome("many-ancestor-links-ok")
+		}
+	}
 	// link-object capacity family: soft-link and external-link objects whose names bring their
 	// own object header to every size up to the single-chunk limit, then a hard link to the link
 	// object (its reference count message needs 8 more bytes of header): a hard link that is
